@@ -23,6 +23,8 @@ PEDS = {
     "pair": (2, []),
     "trio": (3, [(0, 1, 2)]),
     "quartet": (4, [(0, 1, 2), (0, 1, 3)]),
+    # father, mother and five children: 4^5 transmission values, bits 8 and 9 belong to the fifth trio
+    "five-children": (7, [(0, 1, 2), (0, 1, 3), (0, 1, 4), (0, 1, 5), (0, 1, 6)]),
 }
 
 _lib = None
